@@ -25,6 +25,7 @@ from sqvm.machine import (Program, Machine, VInt, VTuple, VFn, value_from_json, 
 from sqvm.builtins import Builtins
 from sqvm.shapes import shapes, instantiate, describe, has_opaque
 from sqvm.logic import AND, OR, NOT, IMPL, IFF, ITE, ABS, SIGN, is_sym
+from sqvm.prove import Prover, StopJob
 
 PROP = "C20"
 
@@ -361,35 +362,19 @@ def run_job(args):
         assumptions = [a for a in assumptions if a is not True]
         m = Machine(prog, B, solver=solver, max_steps=6000)
 
+        P = Prover(solver, timeout_ms)
+
         def prove(name, goal, o):
-            out["goals"] += 1
-            if goal is True:
-                out["ok"] += 1
-                return
-            t0 = time.time()
-            solver.push()
-            solver.add(z3.BoolVal(False) if goal is False else z3.Not(goal))
-            solver.set("timeout", timeout_ms)
-            r = solver.check()
-            out["queries"] += 1
-            if r == z3.unsat:
-                out["ok"] += 1
-                if len(out["samples"]) < 2:
-                    out["samples"].append({"obligation": name, "case": out["desc"],
-                                           "smt_assertions": len(solver.assertions()), "verdict": "unsat"})
-            elif r == z3.sat:
-                cex = refine_and_replay(qv, h, prog, fn, op, arg, solver, B, leaves, o)
-                if cex is None:
-                    out["inconclusive"].append("%s %s: model did not reproduce natively" % (out["desc"], name))
-                else:
-                    out["fail"].append({"goal": name, "case": out["desc"], "cex": cex})
-            else:
-                out["inconclusive"].append("%s %s: solver %s" % (out["desc"], name, solver.reason_unknown()))
-            solver.pop()
-            out["solver_s"] += time.time() - t0
+            before = P.ok
+            P.prove("%s %s" % (out["desc"], name), goal,
+                    lambda sv: refine_and_replay(qv, h, prog, fn, op, arg, sv, B, leaves, o))
+            if P.ok > before and goal is not True and len(out["samples"]) < 2:
+                out["samples"].append({"obligation": name, "case": out["desc"],
+                                       "smt_assertions": len(solver.assertions()), "verdict": "unsat"})
 
         def on_outcome(o):
             if o.kind == "value":
+                P.witness(out["desc"])
                 res = num_of(prog, o.value)
                 goals = spec(op, opers, res, O)
                 if goals is None:
@@ -410,6 +395,16 @@ def run_job(args):
             m.run(fn, arg, on_outcome, assumptions)
         except Unsupported as e:
             out["inconclusive"].append("%s: %s" % (out["desc"], e))
+        except StopJob:
+            pass
+        out["goals"] += P.goals
+        out["ok"] += P.ok
+        out["queries"] += P.queries
+        out["solver_s"] += P.solver_s
+        out["witnesses"] = P.witnesses
+        out["inconclusive"].extend(P.inconclusive)
+        for f in P.failures:
+            out["fail"].append({"goal": f["goal"], "case": out["desc"], "cex": f["cex"]})
         out["paths"] = m.stats.paths
         out["instr"] = m.stats.instructions
         out["queries"] += m.stats.feas_queries
@@ -518,6 +513,7 @@ def main():
         rep.solver_s += r["solver_s"]
         rep.obligations += r["goals"]
         rep.discharged += r["ok"]
+        rep.extra["vacuity_witnesses_sat"] = rep.extra.get("vacuity_witnesses_sat", 0) + r.get("witnesses", 0)
         for s in r["samples"]:
             rep.sample(s)
         for f in r["fail"]:
